@@ -422,33 +422,67 @@ func TestC17Measured(t *testing.T) {
 				}
 			}
 		}}
-		as := workers.NewActiveScenario(sc, m, stats, log.NewDiscardLogger(), logrus.New())
-		as.Setup()
-		st := as.VerifNewIterationState()
-		workers.VerifStateT(st).Reset("1")
-		t0 := time.Now()
-		crashed, pv := kit.Guard(func() { as.Run(st) })
-		outer := int64(time.Since(t0))
-		if crashed {
-			o.Fail("c17-worker-crash", "a panic escaped the iteration: "+kit.Str(fmt.Sprint(pv)))
-			continue
+		// two rounds on the same metrics instance, as two executions of the scenario in one process
+		// are: every run begins by resetting the instance (Run.Do), sets the scenario up and runs
+		rounds := 1 + i%2
+		for round := 0; round < rounds; round++ {
+			m.Reset()
+			stats = &progress.Stats{}
+			as := workers.NewActiveScenario(sc, m, stats, log.NewDiscardLogger(), logrus.New())
+			as.Setup()
+			st := as.VerifNewIterationState()
+			workers.VerifStateT(st).Reset("1")
+			t0 := time.Now()
+			crashed, pv := kit.Guard(func() { as.Run(st) })
+			outer := int64(time.Since(t0))
+			if crashed {
+				o.Fail("c17-worker-crash", "a panic escaped the iteration: "+kit.Str(fmt.Sprint(pv)))
+				break
+			}
+			tot := stats.Total()
+			d := tot.SuccessfulIterationDurations
+			label := "success"
+			if how >= 2 {
+				d = tot.FailedIterationDurations
+				label = "fail"
+			}
+			if d.Count != 1 {
+				o.Fail("c17-count", "one iteration (ending "+strconv.Itoa(how)+") was recorded "+strconv.FormatUint(d.Count, 10)+" times under its outcome")
+				break
+			}
+			// the exported metric: one sample under the outcome's label, its value the recorded duration
+			_, _, fams := runkit.SampleCounts(m)
+			var expCount uint64
+			var expSum float64
+			for _, f := range fams {
+				if f.GetName() != "form3_loadtest_iteration" {
+					continue
+				}
+				for _, mt := range f.GetMetric() {
+					lab := map[string]string{}
+					for _, l := range mt.GetLabel() {
+						lab[l.GetName()] = l.GetValue()
+					}
+					if lab["stage"] == "iteration" && lab["result"] == label {
+						expCount += mt.GetSummary().GetSampleCount()
+						expSum += mt.GetSummary().GetSampleSum()
+					}
+				}
+			}
+			if expCount != 1 {
+				o.Fail("c17-exported-count", fmt.Sprintf("round %d on one metrics instance: one iteration (ending %d) ran, the exported iteration metric holds %d sample(s) labelled %s", round+1, how, expCount, label))
+				break
+			}
+			o.Count("body-ends-by", []string{"return", "return", "Fail+return", "FailNow", "Fatalf", "failed require", "panic(string)", "panic(slice error)"}[how])
+			o.Count("round-on-the-metrics-instance", strconv.Itoa(round+1))
+			tags := []string{"measured"}
+			if how >= 3 {
+				tags = append(tags, "nt")
+			}
+			o.Case("measured_ok", []string{kit.I(bodyNs), kit.I(int64(d.Min)), kit.I(outer)}, "T", tags...)
+			o.Case("measured_ok", []string{kit.I(bodyNs), kit.I(int64(d.Max)), kit.I(outer)}, "T", "measured")
+			o.Case("measured_ok", []string{kit.I(bodyNs), kit.I(int64(d.Average)), kit.I(outer)}, "T", "measured")
+			o.Case("measured_ok", []string{kit.I(bodyNs), kit.I(int64(expSum)), kit.I(outer)}, "T", "measured", "exported")
 		}
-		tot := stats.Total()
-		d := tot.SuccessfulIterationDurations
-		if how >= 2 {
-			d = tot.FailedIterationDurations
-		}
-		if d.Count != 1 {
-			o.Fail("c17-count", "one iteration (ending "+strconv.Itoa(how)+") was recorded "+strconv.FormatUint(d.Count, 10)+" times under its outcome")
-			continue
-		}
-		o.Count("body-ends-by", []string{"return", "return", "Fail+return", "FailNow", "Fatalf", "failed require", "panic(string)", "panic(slice error)"}[how])
-		tags := []string{"measured"}
-		if how >= 3 {
-			tags = append(tags, "nt")
-		}
-		o.Case("measured_ok", []string{kit.I(bodyNs), kit.I(int64(d.Min)), kit.I(outer)}, "T", tags...)
-		o.Case("measured_ok", []string{kit.I(bodyNs), kit.I(int64(d.Max)), kit.I(outer)}, "T", "measured")
-		o.Case("measured_ok", []string{kit.I(bodyNs), kit.I(int64(d.Average)), kit.I(outer)}, "T", "measured")
 	}
 }
